@@ -616,6 +616,8 @@ func main() {
 		"zero-size entries, replacing Puts with larger and smaller values that evict), all-zero sizes, limit 1..2 with mostly zero-size entries, sizes v<<k filling a limit at or next to MaxInt64; "+
 		"each line: fill, Gets at both ends of every heap level, one disturbance (Remove run, Remove+Put, Get run, replacing run, mix), drain by Puts / one Put / Clear / Remove-to-an-eighth and regrow; "+
 		"one long history (more than 2^12 uses) on a cache of a few hundred entries. "+
+		"Capacity history (round 4): a cache that held 1023, 1024, 1025 or 1500 entries (and a few smaller peaks), drained to exactly 0, 1 or 2 entries by Clear / by Removes in three orders / by one Put whose size equals the limit, "+
+		"then used again as a small cache (Gets of entries that are not the newest, Remove, replacing Put, ordered drain; what the drain left is the first victim); every count 0..130 in turn (n entries, one Put with exactly n victims, n entries, Clear). "+
 		"A case is non-trivial when it evicts or performs a Put/Get/Remove after a Remove; distinct = distinct input lines.",
 		exec, func(g *tr.G) {
 			if g.Prop == "C09" {
